@@ -1094,28 +1094,34 @@ def trlog(T, check=True, twist=False):
                 return np.zeros((3,))
             else:
                 return np.zeros((3, 3))
-        elif abs(np.trace(R) + 1) < 100 * _eps:
-            # check for trace = -1
-            #   rotation by +/- pi, +/- 3pi etc.
-            diagonal = R.diagonal()
-            k = diagonal.argmax()
-            mx = diagonal[k]
-            I = np.eye(3)
-            col = R[:, k] + I[:, k]
-            w = col / np.sqrt(2 * (1 + mx))
-            theta = math.pi
-            if twist:
-                return w * theta
-            else:
-                return base.skew(w * theta)
         else:
-            # general case
-            theta = math.acos((np.trace(R) - 1) / 2)
-            skw = (R - R.T) / 2 / math.sin(theta)
-            if twist:
-                return base.vex(skw * theta)
+            # rotation angle from both its sine (skew part of R) and its cosine (trace):
+            # accurate for every angle, unlike acos() alone near 0 and near pi
+            sw = base.vex(R)                    # sin(theta) * axis
+            s = base.norm(sw)
+            c = (np.trace(R) - 1) / 2
+            theta = math.atan2(s, c)
+            if c >= 0:
+                # theta <= pi/2: the skew part gives the axis, theta / sin(theta) -> 1 as theta -> 0
+                if s > 0:
+                    w = sw * (theta / s)
+                else:
+                    w = sw
             else:
-                return skw * theta
+                # theta > pi/2: sin(theta) can be arbitrarily small, take the axis from the
+                # symmetric part (R + R.T) / 2 = cos(theta) I + (1 - cos(theta)) a a.T
+                B = (R + R.T) / 2
+                k = B.diagonal().argmax()
+                col = B[:, k].copy()
+                col[k] = col[k] - c             # (1 - cos(theta)) a[k] a
+                a = col / math.sqrt(col[k] * (1 - c))
+                if np.dot(a, sw) < 0:
+                    a = -a                      # sense of rotation from the skew part
+                w = a * theta
+            if twist:
+                return w
+            else:
+                return base.skew(w)
     else:
         raise ValueError("Expect SO(3) or SE(3) matrix")
 
